@@ -352,12 +352,13 @@ sys_prop(
     "a drop guard; one reload is all-or-nothing; DepsGraph::reload treats an unwinding reload as failed.  "
     "`later calls recover` and `hot_reload still returns` are exercised by the engines.",
     ["Proofs/SysGrows.v", "Proofs/SysFrame.v", "Proofs/SysRecs.v", "Proofs/SysStatic.v", "Proofs/SysMap.v",
-     "Proofs/SysReload.v", "Tie/Records.v", "Tie/Erasure.v", "Props/C09.v"],
+     "Proofs/SysReload.v", "Tie/Records.v", "Tie/Erasure.v", "Tie/Static.v", "Props/C09.v"],
     ["Props/C09.vo"],
     ["C09_cached_values_untouched", "C09_recording_restored_at_top_level", "C09_recording_stack_restored",
      "C09_code_restores_recording_on_every_exit", "C09_reload_is_all_or_nothing",
-     "C09_code_treats_a_panicking_reload_as_failed", "C09_loads_leave_reloader_state"],
-    ["Records", "Deps"], ["hot_reload-hangs-after-loader-panic"], mode="all",
+     "C09_code_treats_a_panicking_reload_as_failed", "C09_code_failed_reload_keeps_the_old_dependencies",
+     "C09_loads_leave_reloader_state"],
+    ["Records", "Deps", "Anycache"], ["hot_reload-hangs-after-loader-panic"], mode="all",
     extra_engines=[("answers", ["--parts", "panic"])])
 
 sys_prop(
@@ -372,12 +373,12 @@ sys_prop(
     "exactly-once ledger over whole histories (incl. reloads, races are C01) is checked on the implementation.  "
     "Partial: swap_any's byte swap and Box::from_raw casts are memory-level and not modelled.",
     ["Proofs/SysGrows.v", "Proofs/SysStatic.v", "Proofs/SysMap.v", "Proofs/SysReload.v", "Tie/Erasure.v",
-     "Props/C13.v"],
+     "Tie/Entry.v", "Props/C13.v"],
     ["Props/C13.vo"],
     ["C13_casts_are_guarded_by_the_type_id", "C13_insertion_loser_dropped_at_once",
      "C13_remove_drops_exactly_the_removed", "C13_take_hands_over_then_the_caller_drops",
      "C13_clear_drops_every_entry", "C13_entries_reachable_through_handles_survive_loads",
-     "C13_lookup_is_by_type"],
+     "C13_old_value_is_replaced_under_the_write_lock", "C13_lookup_is_by_type"],
     ["Entry"], ["value-not-dropped-exactly-once", "handle-changed", "torn-read", "guard-not-pinned"], mode="all",
     extra_engines=[("rwdiff", [])])
 
